@@ -146,7 +146,17 @@ func genHistory(t *simrt.Tape, cfg histCfg) *History {
 				}
 			}
 		}
-		if ses != "4294967295" && t.Choose(7, "ses.eq.pid") == 6 {
+		if ses != "4294967295" && t.Choose(9, "ses.zero") == 8 {
+			// the kernel's 32-bit session counter has wrapped: 0 is an ordinary session id
+			zero := false
+			for _, o := range w.Sessions {
+				zero = zero || o.Ses == "0"
+			}
+			if !zero {
+				ses = "0"
+			}
+		}
+		if ses != "4294967295" && ses != "0" && t.Choose(7, "ses.eq.pid") == 6 {
 			// the audit session id is just a counter: it may coincide with a PID (its own sshd's or
 			// that of another session)
 			cand := pid
